@@ -232,8 +232,8 @@ impl Prop for C13 {
     }
     fn runs(&self, tier: Tier) -> u64 {
         match (tier, cfg!(debug_assertions)) {
-            (Tier::Quick, true) => 1_500_000,
-            (Tier::Quick, false) => 1_500_000,
+            (Tier::Quick, true) => 4_000_000,
+            (Tier::Quick, false) => 4_000_000,
             (Tier::Thorough, true) => 250_000_000,
             (Tier::Thorough, false) => 250_000_000,
         }
@@ -579,8 +579,8 @@ impl Prop for C16 {
     }
     fn runs(&self, tier: Tier) -> u64 {
         match (tier, cfg!(debug_assertions)) {
-            (Tier::Quick, true) => 1_500_000,
-            (Tier::Quick, false) => 500_000,
+            (Tier::Quick, true) => 4_000_000,
+            (Tier::Quick, false) => 2_000_000,
             (Tier::Thorough, true) => 250_000_000,
             (Tier::Thorough, false) => 80_000_000,
         }
